@@ -94,6 +94,26 @@ def r_process(ck: Checker) -> None:
                f"rebuild({unparse(rb[0].args[0])}, {unparse(rb[0].args[1])}, {sorted(it.texts(rb[0], rb[0].args[2]))})", "argument i of the aux atom must be the occurrence's name for canonical variable i")
 
 
+def r_aux_defined(ck: Checker) -> None:
+    """whenever a statement is rewritten to use the auxiliary atom, the rule that defines that atom has been emitted"""
+    func = ck.func(f"{LC}.process")
+    rules = resolved_calls(ck.prg, func, "clingo.ast.Rule")
+    ck.need(len(rules) == 1, "process builds the auxiliary rule at one site")
+    loop = enclosing_loop(func, rules[0])
+    rstmt = enclosing_stmt(func, rules[0])
+    rname = unparse(rstmt.targets[0]) if isinstance(rstmt, ast.Assign) else None  # type: ignore[attr-defined]
+    regs = [c for c in attr_calls(func, "append") if "additional_rules" in unparse(c.func.value) and (unparse(c.args[0]) == rname or c.args[0] is rules[0])]  # type: ignore[attr-defined]
+    ck.need(len(regs) == 1, "the auxiliary rule is registered in additional_rules at one site")
+    stores = [n for n in find_nodes(func.node, lambda n: isinstance(n, ast.Assign) and isinstance(n.targets[0], ast.Subscript) and unparse(n.targets[0].value) == "self.prg")]  # type: ignore[attr-defined]
+    ck.need(len(stores) >= 1, "process writes rewritten statements back into self.prg")
+    itm = ck.interp(func, None, mark_stmts={id(enclosing_stmt(func, regs[0])): "defined"}, clear_marks_at={id(loop): "defined"})
+    for st_ in stores:
+        sts = itm.states(st_)
+        ok = bool(sts) and all("defined" in s.marks for s in sts)
+        ck.add("a statement is rewritten to use the auxiliary atom only after its defining rule was emitted", ok, func, st_, f"`{short(unparse(enclosing_stmt(func, regs[0])), 70)}` executed on every path to `{short(unparse(st_), 60)}`: {ok}",
+               "the set may occur twice inside ONE statement (body and an aggregate condition): one rewritten statement is enough for the auxiliary atom to be needed; without its rule the atom is underivable and the rewritten rule never fires")
+
+
 def r_renaming(ck: Checker) -> None:
     func = ck.func("literal_duplication:anonymize_variables.<locals>.replace")
     it = ck.interp(func)
@@ -213,6 +233,7 @@ def r_execute(ck: Checker) -> None:
 RULES = [
     Rule("C10.B.collectors", P + ("C04",), r_collectors),
     Rule("C10.B.process", P + ("C07",), r_process),
+    Rule("C10.aux-defined", P, r_aux_defined),
     Rule("C10.renaming", P, r_renaming),
     Rule("C10.rebuild", P, r_rebuild),
     Rule("C10.TABLE.filter", P, r_filter),
